@@ -46,10 +46,15 @@ def run_impl(case):
     if OBS is None:
         OBS = _observers()
     rows = [tuple(r) for r in case["rows"]]
+    names = ["a", "b"][: case["width"]]
     if case.get("lazy"):
-        df = DataFrame(rows=(r for r in rows), schema=["a", "b"][: case["width"]])
+        df = DataFrame(rows=(r for r in rows), schema=names)
+    elif case.get("ctor") == "dicts" and rows:
+        df = DataFrame([dict(zip(names, r)) for r in rows])  # built from dictionaries (size total not computed yet)
+    elif case.get("ctor") == "tuple-schema":
+        df = DataFrame(rows=list(rows), schema=tuple(names))
     else:
-        df = DataFrame(rows=list(rows), schema=["a", "b"][: case["width"]])
+        df = DataFrame(rows=list(rows), schema=names)
     outs = []
     for op in case["ops"]:
         k = op[0]
@@ -180,6 +185,7 @@ def evaluate(ctx, cases):
             ctx.hit("op:" + op[0])
         ctx.hit("rows:%d" % min(len(c["rows"]), 9))
         ctx.hit("lazy" if c.get("lazy") else "eager")
+        ctx.hit("ctor:" + c.get("ctor", "rows"))
         clause = oracle(c, outs, final_rows)
         if not mo.startswith("ok "):
             raise InfraError("model rejected case %r: %r" % (c, mo))
@@ -221,6 +227,8 @@ def exhaustive_cases(ctx, depth, nmax, kmax):
                     else:
                         ops.append(op)
                 yield {"rows": rows, "width": 1, "ops": ops}
+                if n and any(o[0] == "append" for o in ops):
+                    yield {"rows": rows, "width": 1, "ops": ops, "ctor": "dicts"}
 
 
 def random_case(ctx, lazy=False):
@@ -248,6 +256,8 @@ def random_case(ctx, lazy=False):
     c = {"rows": rows, "width": width, "ops": ops}
     if lazy:
         c["lazy"] = True
+    elif rng.random() < 0.3:
+        c["ctor"] = rng.choice(["dicts", "tuple-schema"])
     return c
 
 
